@@ -54,6 +54,6 @@ def run(ctx):
                 "combination for BCDDs); recursive calls are builtins with the meaning of the callee, reduce yields a node. "
                 "The returned edge must denote the operation for all values of atoms and decision variables, the new "
                 "node must respect the variable order, and a cache entry must be valid for its key.")
-    n = estep.run(ctx, F, kinds=("bdd", "bcdd", "zbdd"), parts=("bin", "ite"))
+    n = estep.run(ctx, F, kinds=("bdd", "bcdd", "zbdd"), parts=("bin", "ite", "not"))
     ctx.floor("E-TABLE.step", "situations of the recursive step (apply_bin, apply_ite, set operations)", n, 300)
     ctx.not_decided = "eval, cofactor accessors, behaviour under memory exhaustion and parallel scheduling"
